@@ -44,6 +44,7 @@ structure Inv1 (s : Node) : Prop where
     qc.round < r ∧ r ≤ s.round ∧ qc.round ≤ s.highQC.round
   makesHist : ∀ r qc tc, Out.make r qc tc ∈ s.hist → r ≤ s.round
   proposed : ∀ b, Out.propose b ∈ s.hist → b.qc.round < b.round ∧ b.qc.round ≤ s.highQC.round
+  replied : ∀ to b, Out.helperReply to b ∈ s.hist → b.qc.round ≤ s.highQC.round
 
 theorem maxRounds_ge {l : List Nat} {m : Nat} (h : maxRounds l = some m) : ∀ x ∈ l, x ≤ m := by
   cases l with
@@ -170,6 +171,7 @@ def Out.untracked : Out → Bool
   | .timeout _ => false
   | .make _ _ _ => false
   | .propose _ => false
+  | .helperReply _ _ => false
   | _ => true
 
 theorem inv1_emit_untracked (s : Node) (o : Out) (ho : o.untracked = true) (h : Inv1 s) :
@@ -481,13 +483,25 @@ theorem inv1_proposerStep (s : Node) (order : List Nat) (h : Inv1 s) :
     · have hm := h.makes r qc tc (by rw [hq]; simp)
       constructor <;> simp [Node.pendingBlocks] <;> grind [Inv1, Node.pendingBlocks]
 
+theorem readBlock_found_mem (s : Node) (d : Digest) (b : Block) (h : s.readBlock d = .found b) :
+    b ∈ s.store.map Prod.snd := by
+  unfold readBlock at h
+  split at h
+  · rename_i b' hb'
+    simp at h; subst h
+    exact List.mem_map.mpr ⟨_, mem_of_lookup hb', rfl⟩
+  · split at h <;> (try split at h) <;> simp at h
+
 theorem inv1_helperStep (c : Committee) (s : Node) (d : Digest) (o : Nat) (h : Inv1 s) :
     Inv1 (s.helperStep c d o) := by
   unfold helperStep
   split
   · exact h
   · split
-    · exact inv1_emit_untracked _ _ rfl h
+    · rename_i b hb
+      have hm := readBlock_found_mem s d b hb
+      have hbk := h.blocks b (by simp [Node.pendingBlocks]; right; right; right; simpa using hm)
+      constructor <;> simp [Node.pendingBlocks] <;> grind [Inv1, Node.pendingBlocks]
     · exact h
     · exact h
 
